@@ -51,8 +51,11 @@ TOL_POS = 1e-8   # closed-form decomposition vs eigh (x cond(C))
 def mat_specs(draw, dim, laws=("iso", "iso", "ti", "aniso")):
     law = draw(st.sampled_from(list(laws)))
     if law == "iso":
+        # hetero: E and v given per element (factors on E, shifts on v), a heterogeneous isotropic material
+        hetero = [[draw(st.sampled_from([0.5, 1.0, 2.0, 3.0])), draw(st.integers(-2, 2)) / 20.0] for _ in range(4)] \
+            if draw(st.integers(0, 3)) == 0 else None
         return dict(law="iso", E=draw(st.sampled_from([1.0, 12.5, 210000.0])), v=draw(st.integers(-4, 9)) / 20.0,
-                    ps=draw(st.booleans()) if dim == 2 else False)
+                    ps=draw(st.booleans()) if dim == 2 else False, hetero=hetero)
     if law == "ti":
         El = draw(st.integers(4, 20)) / 2.0
         return dict(law="ti", El=El, Et=El * draw(st.integers(2, 10)) / 10.0, Gl=draw(st.integers(1, 10)) / 2.0,
@@ -61,10 +64,16 @@ def mat_specs(draw, dim, laws=("iso", "iso", "ti", "aniso")):
     return dict(law="aniso", seed=draw(st.integers(0, 999)))
 
 
-def make_mat(spec, dim):
-    """-> (EasyFEA law, iso constants or None)"""
+def make_mat(spec, dim, Ne=None):
+    """-> (EasyFEA law, iso constants or None; a list of constants per element for a heterogeneous material)"""
     law = spec["law"]
     if law == "iso":
+        if spec.get("hetero") and Ne:
+            h = [spec["hetero"][e % len(spec["hetero"])] for e in range(Ne)]
+            E_e = np.array([spec["E"] * f for f, _ in h], float)
+            v_e = np.array([min(max(spec["v"] + dv, -0.3), 0.45) for _, dv in h], float)
+            mat = Models.Elastic.Isotropic(dim, E=E_e, v=v_e, planeStress=bool(spec["ps"]))
+            return mat, [co.iso_consts(float(E_e[e]), float(v_e[e]), dim, bool(spec["ps"])) for e in range(Ne)]
         mat = Models.Elastic.Isotropic(dim, E=spec["E"], v=spec["v"], planeStress=bool(spec["ps"]))
         return mat, co.iso_consts(spec["E"], spec["v"], dim, bool(spec["ps"]))
     if law == "ti":
@@ -191,10 +200,16 @@ def check_split(case, rec):
     dim = int(case["dim"])
     D = 3 if dim == 2 else 6
     Ne, nPg = int(case["Ne"]), int(case["nPg"])
-    mat, iso = make_mat(case["mat"], dim)
+    mat, iso = make_mat(case["mat"], dim, Ne)
     law = case["mat"]["law"]
-    C = np.array(mat.C, float)
-    wC = np.linalg.eigvalsh((C + C.T) / 2)
+    Call = np.array(mat.C, float)
+    hetero = Call.ndim == 3
+    if hetero:
+        rec.label("material:heterogeneous")
+        law = law + ":hetero"
+    Cs = [Call[e] if hetero else Call for e in range(Ne)]
+    isos = iso if isinstance(iso, list) else [iso] * Ne
+    wC = np.concatenate([np.linalg.eigvalsh((c + c.T) / 2) for c in Cs])
     if wC.min() <= 0:
         raise Inconclusive("generated law is not positive definite")
     nC, kappa = float(wC.max()), float(wC.max() / wC.min())
@@ -204,8 +219,13 @@ def check_split(case, rec):
         rec.label("gen:" + p["g"] + (":rot" if p["rot"] is not None else ":axis"))
     rec.nontrivial(any(p["g"] != "generic" for p in case["pts"]))
     for split in case["splits"]:
+        if hetero and split not in ("Amor", "Miehe"):
+            # per-element (E, v) are only handled by the Amor and Miehe branches of the model (the other splits raise a shape
+            # error on the unchanged tree); the property names isotropic and anisotropic materials, not heterogeneous ones
+            rec.label("hetero:split_not_supported")
+            continue
         rec.label("split:" + split)
-        orc = co.SplitOracle(split, dim, C, iso)
+        orcs = [co.SplitOracle(split, dim, Cs[e], isos[e]) for e in range(Ne)]
         pfm = Models.PhaseField(mat, split, case["regu"], 1.0, 0.1)
         cP, cM = pfm.Calc_C(FeArray.asfearray(eps.copy()))
         sP, sM = pfm.Calc_Sigma_e_pg(FeArray.asfearray(eps.copy()))
@@ -218,7 +238,7 @@ def check_split(case, rec):
         sps, clss, lodes = {}, {}, {}
         for e in range(Ne):
             for p in range(nPg):
-                x = orc.decomposed(eps[e, p])
+                x = orcs[e].decomposed(eps[e, p])
                 if x is None:
                     sps[e, p], clss[e, p], lodes[e, p] = None, "none", "none"
                 else:
@@ -229,6 +249,7 @@ def check_split(case, rec):
             mixed = len({lodes[e, p] for p in range(nPg)}) > 1
             if mixed and split == "Miehe":
                 rec.label("elem:mixed_classes")
+            C, orc = Cs[e], orcs[e]
             for p in range(nPg):
                 ev = eps[e, p]
                 ne = float(np.linalg.norm(ev))
